@@ -60,7 +60,17 @@ pub struct ImplDir {
     pub consts: Vec<(String, Vec<String>)>,
 }
 
+#[derive(Clone, Debug)]
+pub struct DataDir {
+    pub file: String,
+    pub path: Vec<String>,
+    pub prefix: String,
+    pub chunk: usize,
+    pub shape: Option<String>,
+}
+
 pub enum Segment {
+    Data(DataDir),
     Text(String),
     Item(ItemDir),
     Impl(ImplDir),
@@ -246,6 +256,34 @@ pub fn parse_template(tpl: &str) -> Unit {
             "constfold-obligations" => {
                 unit.segments.push(Segment::Text(std::mem::take(&mut text)));
                 unit.segments.push(Segment::ConstFoldHere);
+            }
+            "data" => {
+                unit.segments.push(Segment::Text(std::mem::take(&mut text)));
+                // <file> :: const NAME as=prefix chunk=N [shape=...]
+                let mut toks: Vec<&str> = rest.split_whitespace().collect();
+                let mut prefix = String::new();
+                let mut chunk = 0usize;
+                let mut shape = None;
+                toks.retain(|t| {
+                    if let Some(v) = t.strip_prefix("as=") {
+                        prefix = v.to_string();
+                        false
+                    } else if let Some(v) = t.strip_prefix("chunk=") {
+                        chunk = v.parse().unwrap_or_else(|_| die("bad chunk="));
+                        false
+                    } else if let Some(v) = t.strip_prefix("shape=") {
+                        shape = Some(v.to_string());
+                        false
+                    } else {
+                        true
+                    }
+                });
+                let joined = toks.join(" ");
+                let parts: Vec<String> = joined.split(" :: ").map(|x| x.trim().to_string()).collect();
+                if parts.len() < 2 || prefix.is_empty() {
+                    die("data needs <file> :: const NAME as=<prefix> [chunk=N] [shape=S]");
+                }
+                unit.segments.push(Segment::Data(DataDir { file: parts[0].clone(), path: parts[1..].to_vec(), prefix, chunk, shape }));
             }
             "item" => {
                 unit.segments.push(Segment::Text(std::mem::take(&mut text)));
